@@ -168,6 +168,15 @@ func stmt(t *Term) (string, string, bool) {
 	return "", "", false
 }
 
+// inClosure selects (by a hash of the rendered term) the cases evaluated inside a function expression.
+func inClosure(s string) bool {
+	h := 0
+	for i := 0; i < len(s); i++ {
+		h = h*31 + int(s[i])
+	}
+	return h&1 == 0
+}
+
 var retType = map[string]string{"B": "Bool", "I": "Int", "O": "Int?", "A": "[Int]", "D": "{Int: Int}"}
 
 func render(c *Case) (src, shown string, err string) {
@@ -177,10 +186,16 @@ func render(c *Case) (src, shown string, err string) {
 		}
 	}()
 	if st, state, ok := stmt(c.Term); ok {
-		src = prelude + "access(all) fun main(): AnyStruct {\n" +
-			"  var a = [10, 11, 12]\n  var bb = [20, 21, 22]\n  var aa = [[10, 11], [20, 21]]\n" +
+		body := "  var a = [10, 11, 12]\n  var bb = [20, 21, 22]\n  var aa = [[10, 11], [20, 21]]\n" +
 			"  var d: {Int: Int} = {0: 10, 1: 11}\n  var ws = [W(), W()]\n" +
-			"  " + st + "\n  return " + state + "\n}\n"
+			"  " + st + "\n  return " + state + "\n"
+		if inClosure(st) {
+			// half of the cases are evaluated inside a function expression: closures are the code
+			// the compiler's peephole pass actually optimises (C34 replays these programs with it on)
+			src = prelude + "access(all) fun main(): AnyStruct {\n  let f = fun (): AnyStruct {\n" + body + "  }\n  return f()\n}\n"
+		} else {
+			src = prelude + "access(all) fun main(): AnyStruct {\n" + body + "}\n"
+		}
 		return src, st, ""
 	}
 	rt, ok := retType[c.Ty]
@@ -188,7 +203,11 @@ func render(c *Case) (src, shown string, err string) {
 		return "", "", "no return type for " + c.Ty
 	}
 	e := expr(c.Term)
-	src = prelude + "access(all) fun main(): " + rt + " {\n  return " + e + "\n}\n"
+	if inClosure(e) {
+		src = prelude + "access(all) fun main(): " + rt + " {\n  let f = fun (): " + rt + " {\n    return " + e + "\n  }\n  return f()\n}\n"
+	} else {
+		src = prelude + "access(all) fun main(): " + rt + " {\n  return " + e + "\n}\n"
+	}
 	return src, e, ""
 }
 
